@@ -84,6 +84,7 @@ def gen(rng, index, tier, dict_heavy=None, vary_k=False):
         kn[key] = pkn[key]
     kn["raises"] = rng.random() < 0.5
     kn["burst_p"] = rng.choice([0.0, 0.3, 0.6])
+    kn["lib_values"] = rng.random() < 0.4
     if dict_heavy:
         kn["containers"] = ["d", "d", "d", "ld", "ld", "l", "t", "st", "dd", "d"]
         kn["atom_p"] = rng.choice([0.25, 0.4])
@@ -235,8 +236,8 @@ def check(plan, r):
             continue
         if not out.strip():
             continue
-        nested_traced = any(lp.funcs[fid]["module"] == m and lp.funcs[fid].get("cls") and
-                            next(c for c in lp.spec["classes"] if c["name"] == lp.funcs[fid]["cls"]).get("outer") for fid in obs)
+        # (decided from the stored rows, not from the calls whose values are judged: a lossy session still leaves rows)
+        nested_traced = any(row[1] == lp.spec["pkg"] + "." + m and (row[2] or "").count(".") >= 2 and "<locals>" not in (row[2] or "") for row in r.rows)
         try:
             ps = SE.parse(out)
         except SyntaxError as e:
@@ -351,6 +352,22 @@ def reaches_duplicate(src, ps):
     return False
 
 
+_DOTTED = __import__("re").compile(r"\b([A-Za-z_][\w]*(?:\.[A-Za-z_][\w]*)+)\b")
+
+
+def _qualified_but_from_imported(src, ps):
+    """Does the annotation text use a module-qualified class name (mod.sub.Cls) that the stub only provides as `from mod.sub import Cls`?"""
+    import ast as _ast
+
+    from_imports = {(n.module, a.name) for n in ps.imports if isinstance(n, _ast.ImportFrom) for a in n.names}
+    plain_imports = {a.name for n in ps.imports if isinstance(n, _ast.Import) for a in n.names}
+    for dotted in _DOTTED.findall(src):
+        mod, _, name = dotted.rpartition(".")
+        if ((mod, name) in from_imports or (mod.startswith("_") and (mod[1:], name) in from_imports)) and mod not in plain_imports:
+            return True   # (the import block renders `_io` as `io`)
+    return False
+
+
 def admit_cause(fail, f, pos, T, rec_active, o, ps=None, src="", pkg_root="simpkg_"):
     if f["body"] == "agen":
         # listed finding (same defect as C02): the yields of an async generator are recorded as CPython's internal wrapper class
@@ -371,6 +388,9 @@ def admit_cause(fail, f, pos, T, rec_active, o, ps=None, src="", pkg_root="simpk
             # listed finding (same defect as under C01.evaluates): an anonymous TypedDict below DefaultDict / Iterator / Type, here in a field
             return "typeddict_under_unsupported_generic"
         if x is not None and x.why.startswith(SE.UNEVALUABLE) and "NameError" in x.why and ("name '%s'" % pkg_root) in x.why:
+            return "typeddict_field_unresolvable"
+        if x is not None and x.why.startswith(SE.UNEVALUABLE) and ps is not None and _qualified_but_from_imported(str(x.typ), ps):
+            # the same defect with a class of another module: the field says `array.array` / `decimal.Decimal`, the stub has `from array import array`
             return "typeddict_field_unresolvable"
     return None
 
